@@ -57,6 +57,10 @@ MUT = {
     "M20_stale_previous_values": (G, "            previous_attachment, previous_regularity = compute_attachment_regularity()\n            # with state.auto_fork():  # not needed",
                                   "            if idx == self._get_iterator_indices()[0] or not self._random_order_dimension or True:\n                previous_attachment, previous_regularity = (compute_attachment_regularity() if not hasattr(self, '_pv') else self._pv)\n                self._pv = (previous_attachment, previous_regularity)\n            # with state.auto_fork():  # not needed",
                                   "population samplers: values before the proposal read once and kept (stale after an accepted block / another call)"),
+    "M21_fit_passes_temperature_one": ("algo/fit/mcmc_saem.py", "sample(state, temperature_inv=self.temperature_inv)", "sample(state, temperature_inv=1.0)",
+                                       "the fit algorithm calls the samplers with temperature_inv = 1 whatever its annealing temperature"),
+    "M22_fit_passes_temperature_not_inverse": ("algo/fit/mcmc_saem.py", "sample(state, temperature_inv=self.temperature_inv)", "sample(state, temperature_inv=self.temperature)",
+                                               "the fit algorithm passes the temperature instead of its inverse"),
 }
 # a real two-coordinate block for the coordinate-wise Gibbs sampler on vectors: coordinate i+1 moves with coordinate i
 MUT["M07_gibbs_block_of_two_coordinates"] = (
